@@ -671,7 +671,11 @@ class _PairsClassifierMixin(BaseMetricLearner, ClassifierMixin):
       cum_tn_inverted = stable_cumsum(y_ordered[::-1] == -1)
       cum_tn = np.concatenate([[0.], cum_tn_inverted])[::-1]
       cum_accuracy = (cum_tp + cum_tn) / n_samples
-      imax = np.argmax(cum_accuracy)
+      # a threshold cannot separate pairs that have the same score: only the
+      # positions where the score changes are attainable cut-offs
+      attainable = np.concatenate([scores_sorted[:-1] != scores_sorted[1:],
+                                   [True]])
+      imax = np.flatnonzero(attainable)[np.argmax(cum_accuracy[attainable])]
       # we set the threshold to the lowest accepted score
       # note: we are working with negative distances but we want the threshold
       # to be with respect to the actual distances so we take minus sign
